@@ -740,6 +740,60 @@ func testifyContracts(p *packages.Package, v instVariant) (string, []structFact)
 				}
 			}
 			fmt.Fprintf(&b, "\n")
+			// the typed wrappers of the expectation: Run hands the callback exactly the call's arguments,
+			// Return/RunAndReturn hand testify exactly the values / the function given
+			if callTN, _ := scope.Lookup("Mock" + n + "_" + name + "_Call").(*types.TypeName); callTN != nil {
+				cset := types.NewMethodSet(types.NewPointer(callTN.Type()))
+				ct := "(*Mock" + n + "_" + name + "_Call)"
+				if cset.Lookup(p.Types, "Run") != nil {
+					var req, fw []string
+					nfix := np
+					if genSig.Variadic() {
+						nfix = np - 1
+						req = append(req, fmt.Sprintf("len(args) >= %d", nfix))
+					} else {
+						req = append(req, fmt.Sprintf("len(args) == %d", np))
+					}
+					fw = append(fw, "$fn == run")
+					for k := 0; k < nfix; k++ {
+						req = append(req, fmt.Sprintf("argfor(args[%d], run, %d)", k, k))
+						if isInterfaceType(genSig.Params().At(k).Type()) {
+							// finding D12 (no nil guard for interface-typed parameters) is assumed away here, not claimed
+							req = append(req, fmt.Sprintf("args[%d] != nil", k))
+						}
+						fw = append(fw, fmt.Sprintf("box($%d) == args[%d]", k, k))
+					}
+					fmt.Fprintf(&b, "// %s.%s, Run: the callback receives exactly the arguments of the call, position by position, once.\n", n, name)
+					fmt.Fprintf(&b, "//@ closure %s.Run#0 props=C03\n", ct)
+					if genSig.Variadic() {
+						req = append(req, fmt.Sprintf("(forall j int :: %d <= j && j < len(args) ==> args[j] == nil || argforelem(args[j], run, %d))", nfix, nfix))
+						fw = append(fw, fmt.Sprintf("len($%d) == len(args) - %d", nfix, nfix))
+						fw = append(fw, fmt.Sprintf("(forall k int :: 0 <= k && k < len($%d) ==> (args[%d + k] != nil ==> box($%d[k]) == args[%d + k]) && (args[%d + k] == nil ==> iszero($%d[k])))", nfix, nfix, nfix, nfix, nfix, nfix))
+						fmt.Fprintf(&b, "//@   loop 0: invariant len(variadicArgs) == len(args) - %d && (forall k int :: 0 <= k && k < $i ==> (args[%d + k] != nil ==> box(variadicArgs[k]) == args[%d + k]) && (args[%d + k] == nil ==> iszero(variadicArgs[k]))) && (forall k int :: $i <= k && k < len(variadicArgs) ==> iszero(variadicArgs[k]))\n", nfix, nfix, nfix, nfix)
+					}
+					req = append(req, "run != nil")
+					fmt.Fprintf(&b, "//@   safety box-inverse\n")
+					fmt.Fprintf(&b, "//@   requires %s\n", join(req))
+					fmt.Fprintf(&b, "//@   site#args $apply: %s\n", join(fw))
+					fmt.Fprintf(&b, "//@   returns#once applied() == old(applied()) + 1\n\n")
+				}
+				if cset.Lookup(p.Types, "Return") != nil && nr > 0 {
+					cs := []string{fmt.Sprintf("len($0) == %d", nr)}
+					for i := 0; i < nr; i++ {
+						cs = append(cs, fmt.Sprintf("$0[%d] == box(param(%d))", i, i))
+					}
+					fmt.Fprintf(&b, "//@ func %s.Return props=C03\n//@   site#values Return: %s\n//@   returns#once called(\"Return\") == 1\n\n", ct, join(cs))
+				}
+				if cset.Lookup(p.Types, "RunAndReturn") != nil {
+					if nr > 0 {
+						fmt.Fprintf(&b, "//@ func %s.RunAndReturn props=C03\n//@   site#provider Return: len($0) == 1 && $0[0] == box(param(0))\n//@   returns#once called(\"Return\") == 1\n\n", ct)
+					} else {
+						fmt.Fprintf(&b, "//@ func %s.RunAndReturn props=C03\n//@   site#callback Run@0: $0 == param(0)\n\n", ct)
+					}
+				}
+			} else {
+				fact(name+"/call-type", false, "type Mock"+n+"_"+name+"_Call exists")
+			}
 			// the expecter method registers the expectation under the method's name with the arguments in order
 			if es := eset.Lookup(p.Types, name); es != nil {
 				esig := es.Obj().(*types.Func).Type().(*types.Signature)
@@ -833,4 +887,12 @@ func compilePhase(cr *checkResult, _ *symex.World) {
 		"bound":   "the corpus /verif/corpus/m/ifaces.go (8 interfaces) x {matryer, testify unrolled, testify not unrolled} plus the known-bad shapes of /verif/corpus/bad; NOT a proof, not counted among the obligations",
 		"results": outs,
 	}
+}
+
+func isInterfaceType(t types.Type) bool {
+	if _, tp := t.(*types.TypeParam); tp {
+		return false
+	}
+	_, ok := t.Underlying().(*types.Interface)
+	return ok
 }
